@@ -31,7 +31,7 @@ func (c19) ID() string    { return "C19" }
 func (c19) Level() string { return "model_checking" }
 func (c19) Env() []string { return []string{"GOMAXPROCS=1"} }
 func (c19) Rule() string {
-	return "(a) every ordered pair (thorough: triple) of corpus inputs loaded by concurrent controlled threads whose hand-offs are hidden from ThreadSanitizer, so the loads are concurrent in its happens-before relation in every serial order; results compared with the same load run alone; every input also loaded by two threads sharing one ConfigDetails value (with and without the project-name option). (b) WithServicesTransform / WithImagesResolved on projects of 0..4 services x error injection at every subset of <=2 services x every schedule up to the preemption bound and every ready select branch of the collector, with deadlock detection, thread-termination and result monitors, ThreadSanitizer active. (c) the dependency-ordered traversal on every DAG of <=3 services x direction x limit {0,1,2} x {no, one} failing visit, all schedules within 2 preemptions (deadlock, leak, race; ordering is C13's). state = distinct happens-before prefix expanded; transition = executed synchronisation step"
+	return "(a) every ordered pair (thorough: triple) of corpus inputs loaded by concurrent controlled threads whose hand-offs are hidden from ThreadSanitizer, so the loads are concurrent in its happens-before relation in every serial order; results compared with the same load run alone; directed schedules that bring the statements of two loads on each package-level variable next to each other (every variable both loads touch x its first 2 (4) occurrences); every input also loaded by two threads sharing one ConfigDetails value (with and without the project-name option). (b) WithServicesTransform / WithImagesResolved on projects of 0..4 services x error injection at every subset of <=2 services x every schedule up to the preemption bound and every ready select branch of the collector, with deadlock detection, thread-termination and result monitors, ThreadSanitizer active. (c) the dependency-ordered traversal on every DAG of <=3 services x direction x limit {0,1,2} x {no, one} failing visit, all schedules within 2 preemptions (deadlock, leak, race; ordering is C13's). state = distinct happens-before prefix expanded; transition = executed synchronisation step"
 }
 func (c19) Assumptions() []string {
 	return []string{
@@ -60,6 +60,7 @@ func doLoad(s *props.Scn, root string) loadRes {
 
 func (c19) Run(c *core.Ctx) {
 	c19loads(c)
+	c19directed(c)
 	c19fanout(c)
 	c19traversal(c)
 	c19freeRunning(c)
@@ -179,6 +180,232 @@ func c19traversal(c *core.Ctx) {
 			return
 		}
 		c.Do("traversal/"+s.id(), func() core.Outcome { return s.explore(c, 2, "traversal:") })
+	}
+}
+
+// ---------------------------------------------------------------- directed schedules on package-level variables
+//
+// ThreadSanitizer can only report a race whose earlier access is still in the (short) event history of its thread. Two
+// whole loads that run one after the other touch the same package-level variable a full load apart, so a conflicting
+// access pair stays unreported unless the schedule puts the two accesses next to each other. The instrumenter brackets
+// every statement that mentions a package-level variable (any variable, also one a change has just introduced) with
+// marks; for every such variable v that both loads touch, and for its first occurrences k, one execution is run in which
+// the load reaching its k-th statement on v first waits there for the other load to reach its k-th statement on v, then
+// executes its statement, then lets the other one execute its statement immediately. The set of executions is
+// determined by (pair of inputs, variable, k): nothing is sampled.
+
+// rdv is the rendezvous state of one directed execution (accessed by both threads and by the scheduler).
+type rdv struct {
+	target string
+	occ    int
+	ids    [2]int
+	count  [2]int
+	stage  [2]int // 0 not arrived, 1 waiting, 2 executing the statement, 3 past it, 9 no partner
+	done   [2]bool
+	cell   uint64
+	paired bool
+}
+
+//go:norace
+func (r *rdv) idx() int {
+	id := vsched.ThreadID()
+	for i, x := range r.ids {
+		if x == id {
+			return i
+		}
+	}
+	return -1
+}
+
+//go:norace
+func (r *rdv) finish(i int) { r.done[i] = true }
+
+//go:norace
+func (r *rdv) hook(post bool, name string) {
+	if name != r.target {
+		return
+	}
+	t := r.idx()
+	if t < 0 {
+		return
+	}
+	o := 1 - t
+	if !post {
+		r.count[t]++
+		if r.count[t] != r.occ || r.stage[t] != 0 {
+			return
+		}
+		if r.done[o] || r.stage[o] >= 2 {
+			r.stage[t] = 9
+			return
+		}
+		if r.stage[o] == 0 {
+			// first to arrive: wait for the partner to arrive at its statement (or to finish without one)
+			r.stage[t] = 1
+			if !vsched.WaitUntil(&r.cell, r.partnerArrived(o)) || r.stage[o] == 0 {
+				// the partner cannot get there (it finished, or it is blocked by something this thread holds)
+				r.stage[t] = 9
+				return
+			}
+			r.stage[t] = 2
+			return
+		}
+		// second to arrive: the partner executes its statement first, this thread right after
+		r.stage[t] = 1
+		vsched.WaitUntil(&r.cell, r.partnerPast(o))
+		r.stage[t] = 2
+		r.paired = true
+		return
+	}
+	if r.stage[t] != 2 {
+		return
+	}
+	r.stage[t] = 3
+	if r.stage[o] == 1 {
+		vsched.WaitUntil(&r.cell, r.partnerPast(o))
+	}
+}
+
+//go:norace
+func (r *rdv) partnerArrived(o int) func() bool {
+	return func() bool { return r.stage[o] != 0 || r.done[o] }
+}
+
+//go:norace
+func (r *rdv) partnerPast(o int) func() bool {
+	return func() bool { return r.stage[o] >= 3 || r.done[o] }
+}
+
+// varCounter records which package-level variables a load touches, and how often.
+type varCounter struct{ n map[string]int }
+
+//go:norace
+func (v *varCounter) hook(post bool, name string) {
+	if !post {
+		v.n[name]++
+	}
+}
+
+func c19directed(c *core.Ctx) {
+	if os.Getenv("C19_COLD_BASE") != "" {
+		return
+	}
+	inputs := props.CorpusScns()
+	names := sortedNames(inputs)
+	base := filepath.Join(props.Scratch(), "c19dir")
+	touched := map[string]map[string]int{}
+	expect := map[string]string{}
+	ready := false
+	prepare := func() {
+		if ready {
+			return
+		}
+		ready = true
+		for _, n := range names {
+			inputs[n].MaterialiseAt(filepath.Join(base, n))
+			vc := &varCounter{n: map[string]int{}}
+			// one controlled execution of the load alone, to see the marks it passes
+			var res loadRes
+			ExploreScenario(0, false, c.Dead, c.Heartbeat, func() (func(), func(*vsched.Sched) string) {
+				vc.n = map[string]int{}
+				vsched.VarHook = vc.hook
+				return func() { res = doLoad(inputs[n], filepath.Join(base, n)) }, func(*vsched.Sched) string { return "" }
+			})
+			vsched.VarHook = nil
+			touched[n] = vc.n
+			expect[n] = res.digest()
+		}
+	}
+	maxOcc := 2
+	if !c.Quick() {
+		maxOcc = 4
+	}
+	pair := func(a, b string) {
+		id := "directed/" + a + "+" + b
+		c.Do(id, func() core.Outcome {
+			prepare()
+			var targets []string
+			for v := range touched[a] {
+				if touched[b][v] > 0 {
+					targets = append(targets, v)
+				}
+			}
+			sort.Strings(targets)
+			ns := []string{a, b}
+			NewRaceReports()
+			var execs, pairedExecs int64
+			for _, v := range targets {
+				for k := 1; k <= maxOcc && k <= touched[a][v] && k <= touched[b][v]; k++ {
+					var r *rdv
+					var results [2]loadRes
+					res := ExploreScenario(0, false, c.Dead, c.Heartbeat, func() (func(), func(*vsched.Sched) string) {
+						r = &rdv{target: v, occ: k, ids: [2]int{-2, -2}}
+						vsched.VarHook = r.hook
+						body := func() {
+							var wg vsync.WaitGroup
+							wg.Add(2)
+							for i, n := range ns {
+								i, n := i, n
+								vsched.Go(func() {
+									r.ids[i] = vsched.ThreadID()
+									vsched.Quiet(func() {
+										defer r.finish(i)
+										results[i] = doLoad(inputs[n], filepath.Join(base, n))
+									})
+									wg.Done()
+								})
+							}
+							wg.Wait()
+						}
+						return body, func(*vsched.Sched) string {
+							for i, n := range ns {
+								if d := results[i].digest(); d != expect[n] {
+									return fmt.Sprintf("result-differs|load of %q interleaved with %q at variable %s (occurrence %d) differs from the load alone", n, ns[1-i], v, k)
+								}
+							}
+							return ""
+						}
+					})
+					vsched.VarHook = nil
+					execs += res.Executions
+					if r != nil && r.paired {
+						pairedExecs++
+					}
+					c.Count("states", res.States)
+					c.Count("transitions", res.Transitions)
+					c.Count("traces_validated_against_impl", res.Executions)
+					sample := map[string]any{"concurrent_loads": ns, "variable": v, "occurrence": k}
+					if res.FailMsg != "" {
+						return core.Outcome{Class: id, Sample: sample, Viol: &core.Violation{Key: "directed:" + strings.SplitN(res.FailMsg, "|", 2)[0] + ":" + v, Msg: res.FailMsg}}
+					}
+					if reps := NewRaceReports(); len(reps) > 0 {
+						return core.Outcome{Class: id, Sample: sample, NoRecheck: true, Viol: &core.Violation{Key: "data-race@" + RaceSite(reps[0]),
+							Msg: fmt.Sprintf("loads of %v with their statements on package-level variable %s (occurrence %d) run next to each other: ThreadSanitizer reports a data race", ns, v, k), Detail: reps[0]}}
+					}
+				}
+			}
+			c.Count("directed_executions", execs)
+			c.Count("directed_executions_paired", pairedExecs)
+			return core.Outcome{Class: id, Sample: map[string]any{"concurrent_loads": ns, "variables": targets, "executions": execs, "paired": pairedExecs}}
+		})
+	}
+	for _, a := range names {
+		if c.Expired() {
+			return
+		}
+		pair(a, a)
+		if c.Quick() {
+			if a != "rich" {
+				pair(a, "rich")
+				pair("rich", a)
+			}
+			continue
+		}
+		for _, b := range names {
+			if b != a {
+				pair(a, b)
+			}
+		}
 	}
 }
 
@@ -413,10 +640,26 @@ func c19fanout(c *core.Ctx) {
 				sets = append(sets, []int{i, j})
 			}
 		}
+		// two failing services also in both completion orders: the second one fails only after the thread of the first
+		// one has run to its end, so "the first error" is unambiguous
+		type errSet struct {
+			errs    []int
+			ordered int // 0 free, 1 errs[0] completes first, 2 errs[1] completes first
+		}
+		var esets []errSet
+		for _, e := range sets {
+			esets = append(esets, errSet{e, 0})
+			if len(e) == 2 {
+				esets = append(esets, errSet{e, 1}, errSet{e, 2})
+			}
+		}
 		for _, op := range []string{"transform", "images"} {
-			for _, errs := range sets {
-				n, errs, op := n, errs, op
+			for _, es := range esets {
+				n, errs, op, ordered := n, es.errs, op, es.ordered
 				id := fmt.Sprintf("fanout/%s/n%d/errs%v", op, n, errs)
+				if ordered != 0 {
+					id += fmt.Sprintf("/first%d", errs[ordered-1])
+				}
 				if c.Expired() {
 					return
 				}
@@ -446,8 +689,22 @@ func c19fanout(c *core.Ctx) {
 						}
 						before = jsonOf(base)
 						np, rerr, returned, live = nil, nil, false, 0
+						firstName, secondName := "", ""
+						if ordered != 0 {
+							firstName, secondName = svcNames[errs[ordered-1]], svcNames[errs[2-ordered]]
+						}
+						tidFirst, orderVoid := -1, false
+						var ocell uint64
 						fn := func(name string, s types.ServiceConfig) (types.ServiceConfig, error) {
 							vsched.Yield()
+							if name == firstName {
+								tidFirst = vsched.ThreadID()
+							}
+							if name == secondName && secondName != "" {
+								if !vsched.WaitUntil(&ocell, func() bool { return tidFirst >= 0 && vsched.ThreadFinished(tidFirst) }) {
+									orderVoid = true // the first one cannot finish before this one returns: no order to assert
+								}
+							}
 							if injected["inj-"+name] {
 								return s, errors.New("inj-" + name)
 							}
@@ -491,6 +748,9 @@ func c19fanout(c *core.Ctx) {
 								}
 								if !injected[rerr.Error()] {
 									return "wrong-error|returned " + rerr.Error()
+								}
+								if firstName != "" && !orderVoid && rerr.Error() != "inj-"+firstName {
+									return fmt.Sprintf("not-the-first-error|service %s failed, and its thread ended, before service %s failed; the call returned %q", firstName, secondName, rerr.Error())
 								}
 							}
 							outcomes[o] = struct{}{}
